@@ -27,6 +27,7 @@
 #include <poll.h>
 #include <dirent.h>
 #include <stdatomic.h>
+#include <sys/time.h>
 #include <sys/mman.h>
 #include <sys/stat.h>
 #include <sys/wait.h>
@@ -539,11 +540,22 @@ static void join_toks (char *out, size_t n, char **t, int from, int to) {
 }
 
 /* ---------------------------------------------------------------- supporting stress runs (API only, as in ipc.c) */
+/* stress modes: log the ids behind a semaphore name and a segment name (+ its lock) for the janitor */
+static void log_ids_of (const char *semname, const char *shmname) {
+	char f[PATHLEN], g[PATHLEN];
+	if (semname) { file_of (f, semname, "_p_sem_object"); sem_id_of (f); }
+	if (shmname) { file_of (f, shmname, "_p_shm_object"); shm_id_of (f); file_of (g, f, "_p_sem_object"); sem_id_of (g); }
+}
+
+static volatile sig_atomic_t alarms;
+static void on_alarm (int sig) { (void) sig; ++alarms; }
+
 static int stress_sem (int nproc, int v, int iters) {
 	struct sh { atomic_int inside, maxin, bad; } *sh = mmap (NULL, 4096, PROT_READ | PROT_WRITE, MAP_SHARED | MAP_ANONYMOUS, -1, 0);
 	char name[96]; snprintf (name, sizeof name, "pvsysv-%d-%llx-stress-s", (int) getpid (), run_tag ());
 	PSemaphore *s0 = p_semaphore_new (name, v, P_SEM_ACCESS_CREATE, NULL);
 	if (!s0) { puts ("stress-sem: cannot create"); return 2; }
+	log_ids_of (name, NULL);
 	p_semaphore_take_ownership (s0);
 	pid_t ps[64];
 	for (int p = 0; p < nproc && p < 64; ++p) {
@@ -551,6 +563,9 @@ static int stress_sem (int nproc, int v, int iters) {
 		if ((ps[p] = fork ()) == 0) {
 			PSemaphore *s = p_semaphore_new (name, 99, P_SEM_ACCESS_OPEN, NULL);
 			if (!s) _exit (3);
+			/* handled signals while the process sleeps in semop (never restarted by the kernel): acquire must retry */
+			struct sigaction sa; memset (&sa, 0, sizeof sa); sa.sa_handler = on_alarm; sigaction (SIGALRM, &sa, NULL);
+			struct itimerval itv = { { 0, 300 }, { 0, 300 } }; setitimer (ITIMER_REAL, &itv, NULL);
 			for (int i = 0; i < iters; ++i) {
 				if (!p_semaphore_acquire (s, NULL)) _exit (4);
 				int x = atomic_fetch_add (&sh->inside, 1) + 1;
@@ -573,9 +588,48 @@ static int stress_sem (int nproc, int v, int iters) {
 	return (atomic_load (&sh->bad) || bad_exit) ? 1 : 0;
 }
 
+/* a process sleeping in p_semaphore_acquire / p_shm_lock (semop) while handled signals arrive: the call returns only
+ * with the unit (semop is never restarted by the kernel, SA_RESTART or not) */
+static int eintr_wait (void) {
+	char name[96]; snprintf (name, sizeof name, "pvsysv-%d-%llx-eintr", (int) getpid (), run_tag ());
+	PSemaphore *s0 = p_semaphore_new (name, 0, P_SEM_ACCESS_CREATE, NULL);
+	PShm *m0 = p_shm_new (name, 64, P_SHM_ACCESS_READWRITE, NULL);
+	log_ids_of (name, name);
+	if (!s0 || !m0 || !p_shm_lock (m0, NULL)) { puts ("eintr-wait: cannot create"); return 2; }
+	p_semaphore_take_ownership (s0);
+	pid_t ps[2];
+	for (int k = 0; k < 2; ++k) {
+		fflush (stdout);
+		if ((ps[k] = fork ()) == 0) {
+			PSemaphore *s = k ? NULL : p_semaphore_new (name, 9, P_SEM_ACCESS_OPEN, NULL);
+			PShm *m = k ? p_shm_new (name, 0, P_SHM_ACCESS_READONLY, NULL) : NULL;
+			if (!s && !m) _exit (3);
+			struct sigaction sa; memset (&sa, 0, sizeof sa); sa.sa_handler = on_alarm; sa.sa_flags = k ? SA_RESTART : 0; sigaction (SIGALRM, &sa, NULL);
+			struct itimerval itv = { { 0, 500 }, { 0, 500 } }; setitimer (ITIMER_REAL, &itv, NULL);
+			pboolean r = k ? p_shm_lock (m, NULL) : p_semaphore_acquire (s, NULL);
+			itv.it_value.tv_usec = itv.it_interval.tv_usec = 0; setitimer (ITIMER_REAL, &itv, NULL);
+			_exit (!r ? 4 : alarms == 0 ? 6 : 0);
+		}
+	}
+	usleep (80000);
+	p_semaphore_release (s0, NULL);
+	p_shm_unlock (m0, NULL);
+	int st[2] = {0, 0};
+	for (int k = 0; k < 2; ++k) waitpid (ps[k], &st[k], 0);
+	p_semaphore_free (s0);
+	p_shm_take_ownership (m0);
+	p_shm_free (m0);
+	int bad = 0;
+	for (int k = 0; k < 2; ++k) if (!WIFEXITED (st[k]) || (WEXITSTATUS (st[k]) != 0 && WEXITSTATUS (st[k]) != 6)) bad = 1;
+	printf ("eintr-wait(sysv) acquire=%d lock=%d (0 returned with the unit after signals, 6 no signal arrived, 4 returned FALSE) %s\n",
+		WIFEXITED (st[0]) ? WEXITSTATUS (st[0]) : -1, WIFEXITED (st[1]) ? WEXITSTATUS (st[1]) : -1, bad ? "VIOLATION" : "ok");
+	return bad;
+}
+
 static int stress_shm (int nproc, int iters) {
 	char name[96]; snprintf (name, sizeof name, "pvsysv-%d-%llx-stress-m", (int) getpid (), run_tag ());
 	PShm *m0 = p_shm_new (name, 4096, P_SHM_ACCESS_READWRITE, NULL);
+	log_ids_of (NULL, name);
 	if (!m0) { puts ("stress-shm: cannot create"); return 2; }
 	pid_t ps[64];
 	for (int p = 0; p < nproc && p < 64; ++p) {
@@ -610,6 +664,7 @@ int main (int argc, char **argv) {
 	if (argc >= 4 && !strcmp (argv[1], "cleanup")) return janitor (argv[2], argv[3]);
 	p_libsys_init ();
 	if (argc >= 5 && !strcmp (argv[1], "stress-sem")) return stress_sem (atoi (argv[2]), atoi (argv[3]), atoi (argv[4]));
+	if (argc >= 2 && !strcmp (argv[1], "eintr-wait")) return eintr_wait ();
 	if (argc >= 4 && !strcmp (argv[1], "stress-shm")) return stress_shm (atoi (argv[2]), atoi (argv[3]));
 	make_names ();
 	for (int h = 0; h < NH; ++h) owner[h] = -1;
